@@ -1,4 +1,4 @@
-import Tengo.Proofs.C19EnumEval
+import Tengo.Proofs.C19EnumFilter
 import Tengo.Proofs.C19EnumPrint
 import Tengo.Model.StdlibExpect
 /-!
@@ -9,10 +9,20 @@ runs when a function value is called).
   `render`, is line by line the audited code `StdlibExpect.enumCode` (= srcmod_enum.tengo = the embedded
   string by `C19.enum_code_matches`, `enum_source_matches`).
 * `enum_key_spec`, `enum_value_spec`: for ALL argument values, heaps, environments and fuel ≥ 5 the exported
-  functions `key` / `value` return their first / second argument (documented: "key returns the first
-  argument", "value returns the second argument"); the heap only grows by the two parameter cells.
-Not proved yet: all, any, each, filter, find, find_key, map, at, chunk (see notes/C19.md; the call/guard
-lemmas they need are in `Proofs/C19EnumEval.lean`).
+  functions `key` / `value` return their first / second argument; the heap only grows by the two parameter cells.
+* `enum_each_spec`, `enum_all_spec`, `enum_any_spec`, `enum_find_spec`, `enum_find_key_spec`, `enum_map_spec`,
+  `enum_filter_spec`: on every array `x` (heap reference reading as `es`) and every callback closure meeting the
+  contract `CallsAs Fc σ cr f` (called on (index, value) in any heap extending `σ`, with fuel ≥ `Fc`, it returns
+  `f index value` and only extends the heap — the interpreter has no abstract host functions), the call returns
+  undefined / `List.all` / `List.any` / `List.find?` (element) / `List.find?` (index) / a fresh array reading as
+  `List.map` / `List.filter` over `es.zipIdx`, for every fuel ≥ `Fc + es.length + 24`. Truthiness is `truthy`
+  (docs/runtime-types.md) and the predicates' answers on the elements must be scalar (truthiness of arrays and
+  maps reads the heap).
+* `enum_not_enumerable_spec`, `enum_filter_not_array_spec`: the documented "returns undefined if `x` is not
+  enumerable / not array" clause for all, any, each, find, find_key, map, at / filter.
+* `callsAs_key`, `callsAs_value`: the module's own `key` and `value` closures meet the callback contract.
+Not proved: `at` on enumerable input, `chunk`, the looping functions on maps, immutable arrays and strings,
+callbacks that write to the heap or fail (see notes/C19.md).
 -/
 namespace Tengo.Props.C19Enum
 open Tengo.Model Tengo.Model.Spec Tengo.Proofs.C19Enum
@@ -64,5 +74,310 @@ example : ∃ c, exportClosure "value" [] = some c ∧
     callClosure 5 { env := [] } c [.int 7, .bool true] {} {} = .ok ((.bool true, {}), st2 {} (.int 7) (.bool true)) := by
   refine ⟨⟨["_", "v"], false, valueBody, []⟩, rfl, ?_⟩
   exact (enum_value_spec 0 { env := [] } [] _ (.int 7) (.bool true) {} {} rfl (by decide)).1
+
+/-! ### the looping functions on arrays -/
+
+/-- The situation of a call `enum.<name>(x, fn)`: in heap `σ` the module environment `menv` binds
+`is_enumerable` to the module's helper closure, `x = .arr r` is an array reading as `es`, `fn = .fn cr` is a
+closure meeting the callback contract for the total function `f` on (index, value), and the caller is below
+the frame limit. -/
+structure EnumCall (Fc : Nat) (σ : St) (menv : Env) (ctx : Ctx) (r st : Nat) (es : List Value) (cr : Nat)
+    (f : Nat → Value → Value) : Prop where
+  bound : IsEnumBound σ menv
+  arr : ArrAt σ r st es
+  cb : CallsAs Fc σ cr f
+  depth : ctx.callDepth < 899
+
+theorem exportClosure_eq {name : String} {menv : Env} {c : Closure} {ps : List String} {body : List Stmt}
+    (hc : exportClosure name menv = some c) (h : exportClosure name menv = some ⟨ps, false, body, menv⟩) :
+    c = ⟨ps, false, body, menv⟩ := by
+  rw [h] at hc; exact (Option.some.inj hc).symm
+
+/-- `each` on an array returns undefined (after calling `fn` on every (index, element)). -/
+theorem enum_each_spec {Fc : Nat} {σ : St} {menv : Env} {ctx : Ctx} {r st cr : Nat} {es : List Value}
+    {f : Nat → Value → Value} (h : EnumCall Fc σ menv ctx r st es cr f) (c : Closure)
+    (hc : exportClosure "each" menv = some c) (F : Nat) (hF : Fc ≤ F) (gs : GSt) :
+    ∃ σ', Ext σ σ' ∧
+      callClosure (F + es.length + 23) ctx c [.arr r, .fn cr] gs σ = .ok ((.undef, gs), σ') := by
+  have := exportClosure_eq hc (ps := ["x", "fn"]) (body := eachBody) rfl
+  subst this
+  obtain ⟨σ', he, hrun⟩ := enum_fn_run (Kb := 7) (tail := []) (ctx := ctx) gs h.bound h.arr h.depth
+    (each_body h.cb) F hF
+  refine ⟨σ', he, ?_⟩
+  have hfu : F + es.length + 23 = F + 7 + es.length + 16 := by omega
+  rw [hfu]
+  show callClosure _ ctx ⟨["x", "fn"], false, guardEnum :: forKV eachLoop :: [], menv⟩ _ gs σ = _
+  rw [hrun, firstRes_none]
+  exact tail_nil (F + 7 + es.length + 11) _ gs σ'
+
+/-- `all` on an array: true iff `fn(index, element)` is truthy for every element. -/
+theorem enum_all_spec {Fc : Nat} {σ : St} {menv : Env} {ctx : Ctx} {r st cr : Nat} {es : List Value}
+    {f : Nat → Value → Value} (h : EnumCall Fc σ menv ctx r st es cr f) (hsc : ∀ i x, es[i]? = some x → Scalar (f i x) = true)
+    (c : Closure) (hc : exportClosure "all" menv = some c) (F : Nat) (hF : Fc ≤ F) (gs : GSt) :
+    ∃ σ', Ext σ σ' ∧
+      callClosure (F + es.length + 24) ctx c [.arr r, .fn cr] gs σ =
+        .ok ((.bool (es.zipIdx.all (fun q => truthy (f q.2 q.1))), gs), σ') := by
+  have := exportClosure_eq hc (ps := ["x", "fn"]) (body := allBody) rfl
+  subst this
+  obtain ⟨σ', he, hrun⟩ := enum_fn_run (Kb := 8) (tail := [.ret (some (.bool true))]) (ctx := ctx) gs
+    h.bound h.arr h.depth (all_body h.cb hsc) F hF
+  refine ⟨σ', he, ?_⟩
+  have hfu : F + es.length + 24 = F + 8 + es.length + 16 := by omega
+  rw [hfu]
+  show callClosure _ ctx ⟨["x", "fn"], false, guardEnum :: forKV allLoop :: [.ret (some (.bool true))], menv⟩ _ gs σ = _
+  rw [hrun, firstRes_all]
+  cases hall : es.zipIdx.all (fun q => truthy (f q.2 q.1))
+  · rfl
+  · exact tail_ret_bool (F + 8 + es.length + 9) _ true gs σ'
+
+/-- `any` on an array: true iff `fn(index, element)` is truthy for some element. -/
+theorem enum_any_spec {Fc : Nat} {σ : St} {menv : Env} {ctx : Ctx} {r st cr : Nat} {es : List Value}
+    {f : Nat → Value → Value} (h : EnumCall Fc σ menv ctx r st es cr f) (hsc : ∀ i x, es[i]? = some x → Scalar (f i x) = true)
+    (c : Closure) (hc : exportClosure "any" menv = some c) (F : Nat) (hF : Fc ≤ F) (gs : GSt) :
+    ∃ σ', Ext σ σ' ∧
+      callClosure (F + es.length + 23) ctx c [.arr r, .fn cr] gs σ =
+        .ok ((.bool (es.zipIdx.any (fun q => truthy (f q.2 q.1))), gs), σ') := by
+  have := exportClosure_eq hc (ps := ["x", "fn"]) (body := anyBody) rfl
+  subst this
+  obtain ⟨σ', he, hrun⟩ := enum_fn_run (Kb := 7) (tail := [.ret (some (.bool false))]) (ctx := ctx) gs
+    h.bound h.arr h.depth
+    (ifret_body h.cb hsc (.bool true) (fun _ _ => .bool true) (fun F cx gs σI _ _ _ _ => ev_bool F cx true gs σI)) F hF
+  refine ⟨σ', he, ?_⟩
+  have hfu : F + es.length + 23 = F + 7 + es.length + 16 := by omega
+  rw [hfu]
+  refine Eq.trans hrun ?_
+  rw [firstRes_any]
+  cases hany : es.zipIdx.any (fun q => truthy (f q.2 q.1))
+  · exact tail_ret_bool (F + 7 + es.length + 9) _ false gs σ'
+  · rfl
+
+/-- `find` on an array: the first element for which `fn(index, element)` is truthy, else undefined. -/
+theorem enum_find_spec {Fc : Nat} {σ : St} {menv : Env} {ctx : Ctx} {r st cr : Nat} {es : List Value}
+    {f : Nat → Value → Value} (h : EnumCall Fc σ menv ctx r st es cr f) (hsc : ∀ i x, es[i]? = some x → Scalar (f i x) = true)
+    (c : Closure) (hc : exportClosure "find" menv = some c) (F : Nat) (hF : Fc ≤ F) (gs : GSt) :
+    ∃ σ', Ext σ σ' ∧
+      callClosure (F + es.length + 23) ctx c [.arr r, .fn cr] gs σ =
+        .ok ((((es.zipIdx.find? (fun q => truthy (f q.2 q.1))).map (fun q => q.1)).getD .undef, gs), σ') := by
+  have := exportClosure_eq hc (ps := ["x", "fn"]) (body := findBody) rfl
+  subst this
+  obtain ⟨σ', he, hrun⟩ := enum_fn_run (Kb := 7) (tail := []) (ctx := ctx) gs h.bound h.arr h.depth
+    (ifret_body h.cb hsc (.ident "v") (fun _ x => x) (fun F cx gs σI _ _ _ hv => ev_ident hv F gs)) F hF
+  refine ⟨σ', he, ?_⟩
+  have hfu : F + es.length + 23 = F + 7 + es.length + 16 := by omega
+  rw [hfu]
+  refine Eq.trans hrun ?_
+  rw [firstRes_find]
+  cases hfind : es.zipIdx.find? (fun q => truthy (f q.2 q.1))
+  · exact tail_nil (F + 7 + es.length + 11) _ gs σ'
+  · rfl
+
+/-- `find_key` on an array: the index of the first element for which `fn(index, element)` is truthy. -/
+theorem enum_find_key_spec {Fc : Nat} {σ : St} {menv : Env} {ctx : Ctx} {r st cr : Nat} {es : List Value}
+    {f : Nat → Value → Value} (h : EnumCall Fc σ menv ctx r st es cr f) (hsc : ∀ i x, es[i]? = some x → Scalar (f i x) = true)
+    (c : Closure) (hc : exportClosure "find_key" menv = some c) (F : Nat) (hF : Fc ≤ F) (gs : GSt) :
+    ∃ σ', Ext σ σ' ∧
+      callClosure (F + es.length + 23) ctx c [.arr r, .fn cr] gs σ =
+        .ok ((((es.zipIdx.find? (fun q => truthy (f q.2 q.1))).map (fun q => Value.int q.2)).getD .undef, gs), σ') := by
+  have := exportClosure_eq hc (ps := ["x", "fn"]) (body := findKeyBody) rfl
+  subst this
+  obtain ⟨σ', he, hrun⟩ := enum_fn_run (Kb := 7) (tail := []) (ctx := ctx) gs h.bound h.arr h.depth
+    (ifret_body h.cb hsc (.ident "k") (fun i _ => .int i) (fun F cx gs σI _ _ hk _ => ev_ident hk F gs)) F hF
+  refine ⟨σ', he, ?_⟩
+  have hfu : F + es.length + 23 = F + 7 + es.length + 16 := by omega
+  rw [hfu]
+  refine Eq.trans hrun ?_
+  rw [firstRes_find]
+  cases hfind : es.zipIdx.find? (fun q => truthy (f q.2 q.1))
+  · exact tail_nil (F + 7 + es.length + 11) _ gs σ'
+  · rfl
+
+/-! ### "returns undefined if `x` is not enumerable" -/
+
+theorem not_enum_of_guard {F : Nat} {ctx : Ctx} {menv : Env} {q : String} {rest : List Stmt} {xv b : Value}
+    (gs : GSt) (σ : St) (hq : ("x" == q) = false) (hq2 : ("is_enumerable" == q) = false)
+    (hb : IsEnumBound σ menv) (hd : ctx.callDepth < 899) (hne : isEnum xv = false) :
+    callClosure (F + 16) ctx ⟨["x", q], false, guardEnum :: rest, menv⟩ [xv, b] gs σ =
+      .ok ((.undef, gs), stG σ xv b) := by
+  rw [guarded_call gs σ hq hq2 hb hd, hne]
+  rfl
+
+/-- all, any, each, find, find_key, map, at: a first argument that is not an array, immutable array, map or
+immutable map gives undefined (the second argument is not looked at). -/
+theorem enum_not_enumerable_spec {name : String}
+    (hn : name ∈ ["all", "any", "each", "find", "find_key", "map", "at"]) {σ : St} {menv : Env} {ctx : Ctx}
+    (hb : IsEnumBound σ menv) (hd : ctx.callDepth < 899) (c : Closure) (hc : exportClosure name menv = some c)
+    (xv b : Value) (hne : isEnum xv = false) (F : Nat) (gs : GSt) :
+    callClosure (F + 16) ctx c [xv, b] gs σ = .ok ((.undef, gs), stG σ xv b) ∧ Ext σ (stG σ xv b) := by
+  refine ⟨?_, ext_stG σ xv b⟩
+  simp only [List.mem_cons, List.not_mem_nil, or_false] at hn
+  rcases hn with rfl | rfl | rfl | rfl | rfl | rfl | rfl
+  · have := exportClosure_eq hc (ps := ["x", "fn"]) (body := allBody) rfl
+    subst this
+    exact not_enum_of_guard gs σ (by decide) (by decide) hb hd hne
+  · have := exportClosure_eq hc (ps := ["x", "fn"]) (body := anyBody) rfl
+    subst this
+    exact not_enum_of_guard gs σ (by decide) (by decide) hb hd hne
+  · have := exportClosure_eq hc (ps := ["x", "fn"]) (body := eachBody) rfl
+    subst this
+    exact not_enum_of_guard gs σ (by decide) (by decide) hb hd hne
+  · have := exportClosure_eq hc (ps := ["x", "fn"]) (body := findBody) rfl
+    subst this
+    exact not_enum_of_guard gs σ (by decide) (by decide) hb hd hne
+  · have := exportClosure_eq hc (ps := ["x", "fn"]) (body := findKeyBody) rfl
+    subst this
+    exact not_enum_of_guard gs σ (by decide) (by decide) hb hd hne
+  · have := exportClosure_eq hc (ps := ["x", "fn"]) (body := mapBody) rfl
+    subst this
+    exact not_enum_of_guard gs σ (by decide) (by decide) hb hd hne
+  · have := exportClosure_eq hc (ps := ["x", "key"]) (body := atBody) rfl
+    subst this
+    exact not_enum_of_guard gs σ (by decide) (by decide) hb hd hne
+
+/-! ### callbacks that meet the contract: the module's own `key` and `value` -/
+
+theorem callsAs_value {σ : St} {cr : Nat} {env : Env}
+    (h : σ.heap[cr]? = some (.clos ⟨["_", "v"], false, valueBody, env⟩)) : CallsAs 5 σ cr (fun _ x => x) := by
+  refine ⟨_, h, ?_⟩
+  intro F hF ctx hd gs σ1 i x _
+  obtain ⟨k, rfl⟩ : ∃ k, F = k + 5 := ⟨F - 5, by omega⟩
+  exact ⟨_, enum_value_spec k ctx env _ (.int i) x gs σ1 rfl hd⟩
+
+theorem callsAs_key {σ : St} {cr : Nat} {env : Env}
+    (h : σ.heap[cr]? = some (.clos ⟨["k", "_"], false, keyBody, env⟩)) : CallsAs 5 σ cr (fun i _ => .int i) := by
+  refine ⟨_, h, ?_⟩
+  intro F hF ctx hd gs σ1 i x _
+  obtain ⟨k, rfl⟩ : ∃ k, F = k + 5 := ⟨F - 5, by omega⟩
+  exact ⟨_, enum_key_spec k ctx env _ (.int i) x gs σ1 rfl hd⟩
+
+/-- `map` on an array: a fresh array (its own store) reading as `fn(index, element)` for every element in
+order. Needs the append bookkeeping of the heap to be well formed and `append` not to be shadowed in the
+module environment. -/
+theorem enum_map_spec {Fc : Nat} {σ : St} {menv : Env} {ctx : Ctx} {r st cr : Nat} {es : List Value}
+    {f : Nat → Value → Value} (h : EnumCall Fc σ menv ctx r st es cr f) (hwf : WfApp σ)
+    (happ : lookupVar menv "append" = none)
+    (c : Closure) (hc : exportClosure "map" menv = some c) (F : Nat) (hF : Fc ≤ F) (gs : GSt) :
+    ∃ σ' rd sd, Ext σ σ' ∧ σ.heap.size ≤ rd ∧ ArrAt σ' rd sd (es.zipIdx.map (fun q => f q.2 q.1)) ∧
+      callClosure (F + es.length + 17) ctx c [.arr r, .fn cr] gs σ = .ok ((.arr rd, gs), σ') := by
+  have := exportClosure_eq hc (ps := ["x", "fn"]) (body := mapBody) rfl
+  subst this
+  obtain ⟨σ', rd, sd, hI, hdc, hda, hrun⟩ := map_run (ctx := ctx) gs h.bound h.arr h.cb h.depth hwf happ F hF
+  obtain ⟨rd', sd', hdc', _, hrd⟩ := hI.dst
+  have : rd' = rd := by
+    rw [hdc] at hdc'
+    injection hdc' with h1
+    injection h1 with h2 _
+    injection h2 with h3
+    exact h3.symm
+  subst this
+  exact ⟨σ', rd', sd, hI.ext, hrd, hda.arrAt, hrun⟩
+
+/-- `filter` on an array: a fresh array of the elements for which `fn(index, element)` is truthy, in order.
+(`filter` is guarded by `is_array_like`, so the module environment must bind that helper.) -/
+theorem enum_filter_spec {Fc : Nat} {σ : St} {menv : Env} {ctx : Ctx} {r st cr : Nat} {es : List Value}
+    {f : Nat → Value → Value} (hb : IsArrLikeBound σ menv) (harr : ArrAt σ r st es) (hcb : CallsAs Fc σ cr f)
+    (hd : ctx.callDepth < 899) (hsc : ∀ i x, es[i]? = some x → Scalar (f i x) = true) (hwf : WfApp σ)
+    (happ : lookupVar menv "append" = none)
+    (c : Closure) (hc : exportClosure "filter" menv = some c) (F : Nat) (hF : Fc ≤ F) (gs : GSt) :
+    ∃ σ' rd sd, Ext σ σ' ∧ σ.heap.size ≤ rd ∧
+      ArrAt σ' rd sd ((es.zipIdx.filter (fun q => truthy (f q.2 q.1))).map (fun q => q.1)) ∧
+      callClosure (F + es.length + 17) ctx c [.arr r, .fn cr] gs σ = .ok ((.arr rd, gs), σ') := by
+  have := exportClosure_eq hc (ps := ["x", "fn"]) (body := filterBody) rfl
+  subst this
+  obtain ⟨σ', rd, sd, hI, hdc, hda, hrun⟩ := filter_run (ctx := ctx) gs hb harr hcb hd hwf happ hsc F hF
+  obtain ⟨rd', sd', hdc', _, hrd⟩ := hI.dst
+  have : rd' = rd := by
+    rw [hdc] at hdc'
+    injection hdc' with h1
+    injection h1 with h2 _
+    injection h2 with h3
+    exact h3.symm
+  subst this
+  exact ⟨σ', rd', sd, hI.ext, hrd, hda.arrAt, hrun⟩
+
+/-- `filter`: a first argument that is not an array or immutable array gives undefined. -/
+theorem enum_filter_not_array_spec {σ : St} {menv : Env} {ctx : Ctx} (hb : IsArrLikeBound σ menv)
+    (hd : ctx.callDepth < 899) (c : Closure) (hc : exportClosure "filter" menv = some c)
+    (xv b : Value) (hne : isArrLike xv = false) (F : Nat) (gs : GSt) :
+    callClosure (F + 16) ctx c [xv, b] gs σ = .ok ((.undef, gs), stG σ xv b) ∧ Ext σ (stG σ xv b) := by
+  have := exportClosure_eq hc (ps := ["x", "fn"]) (body := filterBody) rfl
+  subst this
+  refine ⟨?_, ext_stG σ xv b⟩
+  rw [filterBody_eq, guardedArr_call gs σ (by decide) (by decide) hb hd, hne]
+  rfl
+
+/-! ### non-vacuity: a concrete heap, module environment, array and callback meet `EnumCall` -/
+
+def exHeap : St :=
+  { heap := #[.cell (.fn 1) false, .clos ⟨["x"], false, isEnumerableBody, []⟩,
+              .store #[.int 1, .int 0] 1, .arr 2 0 2, .clos ⟨["_", "v"], false, valueBody, []⟩,
+              .clos ⟨["k", "_"], false, keyBody, []⟩,
+              .cell (.fn 7) false, .clos ⟨["x"], false, isArrayLikeBody, []⟩] }
+def exEnv : Env := [{ vars := [("is_enumerable", 0), ("is_array_like", 6)] }]
+
+theorem exBoundArr : IsArrLikeBound exHeap exEnv :=
+  ⟨7, [], ⟨6, false, rfl, rfl⟩, rfl, fun _ _ => rfl⟩
+
+theorem exBound : IsEnumBound exHeap exEnv :=
+  ⟨1, [], ⟨0, false, rfl, rfl⟩, rfl, fun _ _ => rfl⟩
+
+/-- `x = [1, 0]`, `fn = enum.value`: the hypotheses of all the theorems above hold. -/
+theorem exCall : EnumCall 5 exHeap exEnv { env := [] } 3 2 [.int 1, .int 0] 4 (fun _ x => x) :=
+  ⟨exBound, ⟨⟨0, 2, rfl, #[.int 1, .int 0], 1, rfl, rfl⟩, rfl⟩, callsAs_value rfl, by decide⟩
+
+theorem exCallKey : EnumCall 5 exHeap exEnv { env := [] } 3 2 [.int 1, .int 0] 5 (fun i _ => .int i) :=
+  ⟨exBound, ⟨⟨0, 2, rfl, #[.int 1, .int 0], 1, rfl, rfl⟩, rfl⟩, callsAs_key rfl, by decide⟩
+
+theorem exScalar : ∀ (i : Nat) (x : Value), [Value.int 1, Value.int 0][i]? = some x → Scalar x = true := by
+  intro i x h
+  match i, h with
+  | 0, h => cases h; rfl
+  | 1, h => cases h; rfl
+  | n + 2, h => simp at h
+
+/-- `enum.all([1, 0], enum.value)` is false, `enum.any` is true, `enum.find` is 1, `enum.find_key(…, enum.key)`
+is 1 (index 0 is falsy), on the reference interpreter. -/
+example : ∃ c σ', exportClosure "all" exEnv = some c ∧
+    callClosure (5 + 2 + 24) { env := [] } c [.arr 3, .fn 4] {} exHeap = .ok ((.bool false, {}), σ') := by
+  obtain ⟨σ', _, h⟩ := enum_all_spec exCall exScalar _ rfl 5 (Nat.le_refl _) {}
+  exact ⟨_, σ', rfl, h⟩
+
+example : ∃ c σ', exportClosure "any" exEnv = some c ∧
+    callClosure (5 + 2 + 23) { env := [] } c [.arr 3, .fn 4] {} exHeap = .ok ((.bool true, {}), σ') := by
+  obtain ⟨σ', _, h⟩ := enum_any_spec exCall exScalar _ rfl 5 (Nat.le_refl _) {}
+  exact ⟨_, σ', rfl, h⟩
+
+example : ∃ c σ', exportClosure "find" exEnv = some c ∧
+    callClosure (5 + 2 + 23) { env := [] } c [.arr 3, .fn 4] {} exHeap = .ok ((.int 1, {}), σ') := by
+  obtain ⟨σ', _, h⟩ := enum_find_spec exCall exScalar _ rfl 5 (Nat.le_refl _) {}
+  exact ⟨_, σ', rfl, h⟩
+
+example : ∃ c σ', exportClosure "find_key" exEnv = some c ∧
+    callClosure (5 + 2 + 23) { env := [] } c [.arr 3, .fn 5] {} exHeap = .ok ((.int 1, {}), σ') := by
+  obtain ⟨σ', _, h⟩ := enum_find_key_spec exCallKey (fun _ _ _ => rfl) _ rfl 5 (Nat.le_refl _) {}
+  exact ⟨_, σ', rfl, h⟩
+
+example : ∃ c σ', exportClosure "each" exEnv = some c ∧
+    callClosure (5 + 2 + 23) { env := [] } c [.arr 3, .fn 4] {} exHeap = .ok ((.undef, {}), σ') := by
+  obtain ⟨σ', _, h⟩ := enum_each_spec exCall _ rfl 5 (Nat.le_refl _) {}
+  exact ⟨_, σ', rfl, h⟩
+
+/-- `enum.map([1, 0], enum.key)` is a fresh array reading `[0, 1]`. -/
+example : ∃ c σ' rd sd, exportClosure "map" exEnv = some c ∧
+    callClosure (5 + 2 + 17) { env := [] } c [.arr 3, .fn 5] {} exHeap = .ok ((.arr rd, {}), σ') ∧
+    ArrAt σ' rd sd [.int 0, .int 1] := by
+  obtain ⟨σ', rd, sd, _, _, ha, h⟩ := enum_map_spec exCallKey (fun _ _ => rfl) rfl _ rfl 5 (Nat.le_refl _) {}
+  exact ⟨_, σ', rd, sd, rfl, h, ha⟩
+
+/-- `enum.filter([1, 0], enum.value)` is a fresh array reading `[1]`. -/
+example : ∃ c σ' rd sd, exportClosure "filter" exEnv = some c ∧
+    callClosure (5 + 2 + 17) { env := [] } c [.arr 3, .fn 4] {} exHeap = .ok ((.arr rd, {}), σ') ∧
+    ArrAt σ' rd sd [.int 1] := by
+  obtain ⟨σ', rd, sd, _, _, ha, h⟩ := enum_filter_spec exBoundArr exCall.arr exCall.cb (ctx := { env := [] })
+    (by decide) exScalar (fun _ _ => rfl) rfl _ rfl 5 (Nat.le_refl _) {}
+  exact ⟨_, σ', rd, sd, rfl, h, ha⟩
+
+example : ∃ c, exportClosure "all" exEnv = some c ∧
+    callClosure 16 { env := [] } c [.int 3, .fn 4] {} exHeap = .ok ((.undef, {}), stG exHeap (.int 3) (.fn 4)) :=
+  ⟨_, rfl, (enum_not_enumerable_spec (name := "all") (by simp) exBound (by decide) _ rfl (.int 3) (.fn 4) rfl 0 {}).1⟩
 
 end Tengo.Props.C19Enum
